@@ -37,15 +37,6 @@ impl AsyncMemoryFS {
         }
     }
 
-    async fn ensure_has_parent(&self, path: &str) -> VfsResult<()> {
-        let separator = path.rfind('/');
-        if let Some(index) = separator {
-            if self.exists(&path[..index]).await? {
-                return Ok(());
-            }
-        }
-        Err(VfsErrorKind::Other("Parent path does not exist".into()).into())
-    }
 }
 
 impl Default for AsyncMemoryFS {
@@ -198,8 +189,9 @@ impl AsyncFileSystem for AsyncMemoryFS {
             // the root directory always exists
             return Err(VfsErrorKind::DirectoryExists.into());
         }
-        self.ensure_has_parent(path).await?;
-        let map = &mut self.handle.write().await.files;
+        let mut handle = self.handle.write().await;
+        handle.ensure_has_parent(path)?;
+        let map = &mut handle.files;
         let entry = map.entry(path.to_string());
         match entry {
             Entry::Occupied(file) => {
@@ -232,9 +224,9 @@ impl AsyncFileSystem for AsyncMemoryFS {
     }
 
     async fn create_file(&self, path: &str) -> VfsResult<Box<dyn Write + Send + Unpin>> {
-        self.ensure_has_parent(path).await?;
         let content = Arc::new(Vec::<u8>::new());
         let mut handle = self.handle.write().await;
+        handle.ensure_has_parent(path)?;
         if let Some(existing) = handle.files.get(path) {
             ensure_file(existing)?;
         }
@@ -294,14 +286,13 @@ impl AsyncFileSystem for AsyncMemoryFS {
     }
 
     async fn remove_dir(&self, path: &str) -> VfsResult<()> {
-        if self.read_dir(path).await?.next().await.is_some() {
+        let mut handle = self.handle.write().await;
+        let file = handle.files.get(path).ok_or(VfsErrorKind::FileNotFound)?;
+        ensure_dir(file)?;
+        if handle.has_children(path) {
             return Err(VfsErrorKind::Other("Directory to remove is not empty".into()).into());
         }
-        let mut handle = self.handle.write().await;
-        handle
-            .files
-            .remove(path)
-            .ok_or(VfsErrorKind::FileNotFound)?;
+        handle.files.remove(path);
         Ok(())
     }
 }
@@ -312,6 +303,25 @@ struct AsyncMemoryFsImpl {
 }
 
 impl AsyncMemoryFsImpl {
+    /// The parent of `path` must be an existing directory. Checked on the locked state, so
+    /// that no other thread can remove the parent between the check and the insertion.
+    fn ensure_has_parent(&self, path: &str) -> VfsResult<()> {
+        let separator = path.rfind('/');
+        if let Some(index) = separator {
+            if let Some(parent) = self.files.get(&path[..index]) {
+                if parent.file_type == VfsFileType::Directory {
+                    return Ok(());
+                }
+            }
+        }
+        Err(VfsErrorKind::Other("Parent path does not exist".into()).into())
+    }
+
+    fn has_children(&self, path: &str) -> bool {
+        let prefix = format!("{}/", path);
+        self.files.keys().any(|key| key.starts_with(&prefix))
+    }
+
     pub fn new() -> Self {
         let mut files = HashMap::new();
         // Add root directory
